@@ -21,6 +21,7 @@ func c18(c *Ctx) {
 	r.Rule("C18.tls-everywhere", "DialContext, every path from the dial to req.Write: with scheme https and a proxy, tls.Client wraps the tunnel, becomes the connection written to, and doHandshake returned nil; without https no TLS client is created; ws/wss are mapped to http/https")
 	r.Rule("C18.verify", "every tls.Client result is handshaken by doHandshake with the same config before use; ServerName defaults to hostNoPort of the backend URL being dialed; doHandshake returns nil only after HandshakeContext succeeded and, unless InsecureSkipVerify, VerifyHostname(cfg.ServerName) succeeded")
 	dialerConfigNotSwapped(c, "C18.tls-everywhere")
+	proxyHonoured(c, "C18.first-hop")
 	r.Rule("C18.stateless", "one dial shares nothing with another: no package-level variable is written after initialisation (no cached TLS configuration or header carries a host name or credentials from one dial to the next; same rule as C11.globals)")
 	packageStateless(c, "C18.stateless")
 	r.Rule("C18.connect", "httpProxyDialer.DialContext: first hop to hostPort(proxy URL); one CONNECT request with URL.Opaque = Host = the requested address; Proxy-Authorization: Basic base64(user:password) only when the proxy URL has a password; the connection is returned only for StatusCode == 200 and closed otherwise; DialContext passes hostPort(backend URL) as the address")
